@@ -516,6 +516,18 @@ func configure(g *gen) {
 	add(FnSpec{Pkg: "pkg/render", Recv: "XMLRenderer", Func: "Render", Lean: "XMLR.Render", UseStructs: []string{"XMLRenderer"}, MutParams: []string{"w"},
 		Extra: []string{"(wans : GoRt.HW → Bool)", "(encode : GoRt.JEnc → GoRt.HW → GoRt.HW × Bool)"},
 		RetExtra: []string{"w"}, RetExtraT: []string{"GoRt.HW"}, Types: encTypes, Exts: encExts})
+	// render.go `responseText`: the text/plain branch of `Auto` — a string or a byte slice is written as it is, every
+	// other value as its JSON encoding (`json.Marshal`: parameter `marshal`, the bytes or an error)
+	add(FnSpec{Pkg: "pkg/render", Func: "responseText", Lean: "responseText", MutParams: []string{"w"},
+		Extra:    []string{"(wans : GoRt.HW → Bool)", "(marshal : GoRt.AnyV → Bytes × Bool)"},
+		RetExtra: []string{"w"}, RetExtraT: []string{"GoRt.HW"},
+		Types:     map[string]T{"http.ResponseWriter": hw, "http.Header": {"opaque", "List (Bytes × Bytes)"}, "any": {"opaque", "GoRt.AnyV"}},
+		TypeCases: map[string]TypeCase{"string": {".str", tStr}, "[]byte": {".bytes", tStr}},
+		Exts: append([]Ext{
+			{Callee: "json.Marshal", Values: []string{"(marshal %1).1", "(marshal %1).2"}, Ts: []T{tStr, {"opaque", "Bool"}}},
+			{Callee: "Text", Stmts: []string{"let %t := Gen.renderText %1 %2 wans", "w := %t.1"}, Value: "%t.2", T: T{"opaque", "Bool"}},
+			{Callee: "TextBytes", Stmts: []string{"let %t := Gen.renderTextBytes %1 %2 wans", "w := %t.1"}, Value: "%t.2", T: T{"opaque", "Bool"}},
+		}, hwExts...)})
 	add(FnSpec{Pkg: "pkg/render", Func: "Auto", Lean: "renderAuto", MutParams: []string{"w"},
 		Extra:    []string{"(env : GoRt.RAEnv GoRt.HW)", "(fallbackType : Bytes)"},
 		RetExtra: []string{"w"}, RetExtraT: []string{"GoRt.HW"},
